@@ -7,6 +7,21 @@ import (
 	"testing"
 )
 
+// scenarioRunners maps the component prefix of a family name (the part before the
+// first ':' — e.g. "cli" in "cli:c04") to the function that runs one scenario of
+// it. Families without a registered prefix are server scenarios. Each component
+// registers itself in an init() of its own file.
+var scenarioRunners = map[string]func(t *testing.T, fam string, seed uint64, idx int, out *bufio.Writer){}
+
+func familyComponent(fam string) string {
+	for i := 0; i < len(fam); i++ {
+		if fam[i] == ':' {
+			return fam[:i]
+		}
+	}
+	return ""
+}
+
 // TestWorker runs scenarios [VERIF_FROM, VERIF_TO) of family VERIF_FAMILY for
 // seed VERIF_SEED and appends their logs to VERIF_OUT. A progress file records
 // the scenario in flight, so that the parent knows which one crashed the process.
@@ -28,7 +43,11 @@ func TestWorker(t *testing.T) {
 	defer w.Flush()
 	for i := from; i < to; i++ {
 		os.WriteFile(out+".progress", []byte(strconv.Itoa(i)), 0o644)
-		runServerScenario(t, fam, seed, i, w)
+		if run, ok := scenarioRunners[familyComponent(fam)]; ok {
+			run(t, fam, seed, i, w)
+		} else {
+			runServerScenario(t, fam, seed, i, w)
+		}
 		w.Flush()
 	}
 	os.WriteFile(out+".progress", []byte("done"), 0o644)
